@@ -3683,8 +3683,14 @@ static WBXMLError wbxml_strtbl_initialize(WBXMLEncoder *encoder, WBXMLTreeNode *
     one_ref = NULL;
 
     /* Keep Strings referenced more than one time */
-    if (strings != NULL)
-        wbxml_strtbl_check_references(encoder, &strings, &one_ref, FALSE);
+    if (strings != NULL) {
+        if (wbxml_strtbl_check_references(encoder, &strings, &one_ref, FALSE) != WBXML_OK) {
+            /* The words only improve the String Table: go on without them, but
+             * release the list when wbxml_strtbl_check_references() has not done it */
+            wbxml_list_destroy(strings, wbxml_buffer_destroy_item);
+            strings = NULL;
+        }
+    }
 
     /* 'strings' is destroyed after call of wbxml_strtbl_check_references() */
 
